@@ -188,7 +188,12 @@ class UnionUnpackerBuilder(AbstractUnpackerBuilder):
         type_match_statements = 0
         for type_arg in self.union_args:
             unpacker = UnpackerRegistry.get(
-                spec.copy(type=type_arg, expression="value", owner=spec.type)
+                spec.copy(
+                    type=type_arg,
+                    expression="value",
+                    owner=spec.type,
+                    could_be_none=True,
+                )
             )
             type_arg_unpackers.append((type_arg, unpacker))
             if isinstance(unpacker, TypeMatchEligibleExpression):
